@@ -748,6 +748,7 @@ func runC10(r *run) {
 	c10WriterIsolation(r, g)
 	c10Env(r)
 	emptyWithCalls(r.violate)
+	returnedListIsACopy(r.violate)
 	skipChildKeepsItsSettings(r.violate)
 	slog.VerifResetGlobals()
 }
